@@ -134,7 +134,7 @@ def hyp_run(strategy, body, n, seed, stats=None, stateful=False):
     import hypothesis
     from hypothesis import HealthCheck, Phase, given, settings
 
-    class _Stop(Exception):
+    class _Stop(BaseException):
         pass
 
     st = settings(
